@@ -655,16 +655,17 @@ def arith_stage(R, prop, tier):
                     continue
                 nf += 1
                 R.violation('%s law %s fails for %s p=%s g=%s d=%s op=%s round=%s a=%s b=%s c=%s result=%s' % (
-                    prop, what, c['cls'], c['p'], c['g'], c['d'], c['op'], c['rnd'], c['a'], c['b'], c['c'], c['r'] if c['op'] != 'str' else c['str']),
+                    prop, what, c['cls'], c['p'], c['g'], c['d'], c['op'], c['rnd'], c['a'], c['b'], c['c'], c['r'] if c['op'] != 'str' else c.get('str', c.get('pu'))),
                     dict(call=c))
     mine = [c for c in calls if (prop == 'C14') == (c['op'] == 'str') and (prop != 'C13' or c['cls'] == 'guarded') and (prop != 'C12' or c['cls'] != 'guarded')]
     R.cov['evaluations'] += len(mine)
     R.cov['traces_validated_against_impl'] += len(mine)
     R.cov['distinct_nontrivial'] += len(set((c['cls'], c['p'], c['g'], c['d'], c['op'], c['rnd'], str(c['a']), str(c['b']), str(c['c'])) for c in mine))
     ops = collections.Counter((c['cls'], c['op'], c['rnd']) for c in mine)
+    R.cov['big_operand_calls'] = sum(1 for c in mine if c.get('big'))
     R.cov['calls_by_class_op_round'] = {'%s.%s(%s)' % k: v for k, v in sorted(ops.items())}
     for c in mine[:3] + mine[len(mine) // 2:len(mine) // 2 + 2]:
-        R.sample({k: c[k] for k in ('cls', 'p', 'g', 'd', 'op', 'rnd', 'a', 'b', 'c', 'r', 'str', 'flags')})
+        R.sample({k: c.get(k) for k in ('big', 'cls', 'p', 'g', 'd', 'op', 'rnd', 'a', 'b', 'c', 'r', 'str', 'flags')})
     R.stage('arithmetic calls judged by Num.tla', calls=len(calls), relevant=len(mine), failures=nf)
 
 
